@@ -143,9 +143,23 @@ def main(args, seed):
     finally:
         shutil.rmtree(root, ignore_errors=True)
     print(f"sensitivity: {sum(1 for r in rows if r[3].startswith('OK'))}/{len(rows)} as expected")
-    if not args:
-        # full run: keep the table next to the catalogue
+    if True:
+        # keep the table next to the catalogue; a partial run updates / adds its rows
         what = {m["name"]: m.get("what", "") for m in load_mutations()}
+        res_path = os.path.join(HERE, "RESULTS.md")
+        if args and os.path.exists(res_path):
+            old_rows = []
+            with open(res_path) as fh:
+                for line in fh:
+                    if line.startswith("| ") and not line.startswith("| mutation") and \
+                            not line.startswith("|---"):
+                        cells = [c.strip() for c in line.strip().strip("|").split("|")]
+                        if len(cells) >= 5:
+                            old_rows.append((cells[0], cells[1], cells[2], cells[3],
+                                             "class=" + cells[4].strip("`") if cells[4].strip("`")
+                                             else ""))
+            new_names = {r[0] for r in rows}
+            rows = [r for r in old_rows if r[0] not in new_names] + rows
         head = subprocess.run(["git", "-C", repo, "rev-parse", "--short", "HEAD"],
                               capture_output=True, text=True).stdout.strip()
         with open(os.path.join(HERE, "RESULTS.md"), "w") as fh:
